@@ -1,6 +1,7 @@
 /- driver handler of the `quota` stream (line protocol, see Main.lean)
 
   quota data <site> <n>            -> accepted | refused <error>     (a measured length at a data site)
+  quota stateq <none|terminalOutputUnchecked> <0|1 terminal> <n> -> verdict of a state output of length n
   quota state <json>               -> accepted <serLen> | refused <error> <serLen>   (a state's output)
   quota text <site> "<text>"       -> accepted <chars> | refused <error> <chars>     (a submitted / reply text)
   quota serlen <json>              -> ok <n>                         (len(json.dumps(value)))
@@ -59,6 +60,14 @@ def handle : List String → String
     match dataSite s, natOf n with
     | some site, some k => showVerdict (checkData site k)
     | _, _ => "unsupported"
+  | ["stateq", quirk, term, n] =>
+    match natOf n with
+    | some k =>
+      let q : Quirks := { terminalOutputUnchecked := quirk = "terminalOutputUnchecked" }
+      if quirk = "none" || quirk = "terminalOutputUnchecked" then
+        showVerdict (checkStateOutputLenQ q (term = "1") k)
+      else "unsupported"
+    | none => "unsupported"
   | ["state", j] =>
     match rd j with
     | some v => showVerdict (checkStateOutput v) ++ "\t" ++ toString (serLen v)
